@@ -155,7 +155,6 @@ def want_of(state):
             "basis": {p: ent(e) for p, e in s["basis"].items() if e["k"] != "none"}}
 
 
-CRASHES = (AssertionError, TypeError, AttributeError, KeyError, IndexError, NameError, RuntimeError, UnboundLocalError)
 _act = re.compile(r"^(\w+)(?:\((.*)\))?$")
 
 
@@ -200,8 +199,7 @@ def pre_class(pre, flavour):
     """Abstract class of the spec pre-state for calls without path arguments (commit, revert): the structural features
     that the tree-wide operations are sensitive to.
       similar  (git) an added file has the content of a basis file at another path - what rename / copy detection pairs
-      blocked  the path of a basis entry holds something of another kind on disk (file where a directory was, ...)
-      kept     a basis entry was unversioned but is still on disk"""
+      blocked  the path of a basis entry holds something of another kind on disk (file where a directory was, ...)"""
     cl = set()
     basis, disk, ver = pre["basis"], pre["disk"], pre["ver"]
     bdirs = {p.rsplit("/", 1)[0] for p in basis if "/" in p} | {p for p, e in basis.items() if e[0] == "dir"}
@@ -214,8 +212,6 @@ def pre_class(pre, flavour):
         want_kind = "dir" if p in bdirs else basis[p][0]
         if p in disk and disk[p][0] != want_kind:
             cl.add("blocked")
-    if any(ver.get(p) == "no" and p in disk for p in basis):
-        cl.add("kept")
     return "+".join(sorted(cl)) or "plain"
 
 
@@ -308,8 +304,6 @@ def replay_paths(sub, chunk):
                 nxt.sort(key=lambda n: want(gkey, n)["last"].split(":")[0] != outcome)     # prefer the same outcome
                 cands.sort(key=lambda n: want(gkey, n)["last"].split(":")[0] != outcome)
                 w = want(gkey, (nxt or cands)[0])
-                if isinstance(exc, CRASHES):
-                    sub.drift("%s %s(%s) raised %s (state as specified)" % (fmt, name, ", ".join(args), type(exc).__name__), rep)
                 if outcome != w["last"].split(":")[0]:
                     sub.drift("%s %s(%s) %s, model says %s (projection as specified)" % (
                         fmt, name, ", ".join(args), calls[-1][-1], w["last"]), rep)
@@ -380,12 +374,6 @@ def run(ctx):
     env.init()
     make_templates(ctx)
     inits = ["empty", "pop"]
-    for fl in ("bzr", "git"):
-        for w in ("WitnessRenameReported", "WitnessRejected", "WitnessKindChange"):
-            if fl == "git" and w != "WitnessRejected":
-                continue          # git has no identities (no rename records) and an index entry never turns directory
-            tlc.check(ctx, "WorkingTree", cfg_text=cfg(fl, SMALL, inits, 3, invariants=(w,), props=()),
-                      expect_violation=w, label="witness %s %s" % (w, fl), workers=4)
     jobs = []
 
     def plan(fl, fmts, paths, depth, sample=None, max_len=None):
@@ -396,6 +384,22 @@ def run(ctx):
         for fmt in fmts:
             part = cover if sample is None or sample >= len(cover) else ctx.rng.sample(cover, sample)
             jobs.extend((fmt, gkey, paths, start, labels) for start, labels in part)
+
+    def witnesses(gkey, flavour):
+        """Anti-vacuity on the graph TLC produced: a rejected call, and (bzr) a reported rename and a kind change occur."""
+        need = {"rejected"} | ({"rename", "kind-change"} if flavour == "bzr" else set())
+        for nid, text in GRAPHS[gkey][0].items():
+            if 'last = "rejected' in text:
+                need.discard("rejected")
+            if need - {"rejected"} and "o |->" in text:
+                for o, n, cc, ko, kn, eo, en in want(gkey, nid)["changes"]:
+                    if o and n and o != n:
+                        need.discard("rename")
+                    if ko == "file" and kn == "dir":
+                        need.discard("kind-change")
+            if not need:
+                return
+        ctx.machinery("vacuity guard: the %s state graph has no state with %s" % (flavour, sorted(need)))
 
     if ctx.quick:
         plan("bzr", ["2a"], SMALL, 4, 500)
@@ -412,6 +416,8 @@ def run(ctx):
         plan("git", ["git"], SMALL, 4, 3000, max_len=7)
         for fl in ("bzr", "git"):                           # E1 at depth 5: model checking only
             tlc.check(ctx, "WorkingTree", cfg_text=cfg(fl, SMALL, inits, 5), label="MC %s depth 5" % fl, workers=8)
+    witnesses("bzr/4/4", "bzr")
+    witnesses("git/4/4", "git")
     core.fork_map(ctx, replay_paths, jobs)
     ctx.cov["exhaustive"] = not ctx.quick
     ctx.rule("paths = transition cover of TLC's state graph of WorkingTree.tla: every edge = one call in one abstract state "
